@@ -1,7 +1,7 @@
 import NixModel.Lemmas.C04Hist
 import NixModel.Lemmas.C04Shape
 import NixModel.Lemmas.StoreWF
-import NixModel.Store.C04Ext
+import NixModel.Lemmas.C04Ext
 
 /-!
 # C04 — deleting an entity removes it, what it owns and every link to it — nothing else
@@ -663,6 +663,22 @@ theorem history4_delete (ops : List Op4) (owner : Path) (cname : String) (key : 
        (k ≠ 0 → ¬ Reach g' k)) := by
   intro g g' hc hkk hown ht hi
   exact delete_step_gone g owner cname key c kk k i hc hkk hown ht hi
+
+/-- **a dimension link never yields a deleted array / frame**: the `link` group of a dimension
+descriptor (`array/dimensions/<n>/link`) is still in place after `delete_all(ids)` — its own groups
+carry no id of a deleted entity — and holds exactly its old links to objects that carry none of
+the ids: the link to a deleted target is gone (the accessor then finds no linked object), every
+other one stays -/
+theorem dimLink_after_delete (g : Graph) (ids : List String) (arr n ds d lk : Nat)
+    (h1 : g.child? arr "dimensions" = some ds) (h2 : g.child? ds (toString n) = some d)
+    (h3 : g.child? d "link" = some lk)
+    (k1 : doomed g ids ds = false) (k2 : doomed g ids d = false) (k3 : doomed g ids lk = false) :
+    dimLinkGroup (g.deleteAll ids) arr n = some lk ∧
+    (g.deleteAll ids).links lk = (g.links lk).filter (fun l => !doomed g ids l.2) ∧
+    ∀ l ∈ (g.deleteAll ids).links lk, ∀ i, g.entityId l.2 = some i → i ∉ ids := by
+  refine ⟨dimLinkGroup_deleteAll g ids arr n ds d lk h1 h2 h3 k1 k2 k3, deleteAll_links g ids lk, ?_⟩
+  intro l hl i hi
+  exact deleteAll_gone g ids lk l hl i (by rw [deleteAll_entityId]; exact hi)
 
 /-- non-vacuity: array `x` with two range dimensions, linked to array `a` and to frame `f`; `f`
 also in a group and as feature data; then `a` and `f` are deleted -/
